@@ -13,7 +13,8 @@ BlankOut == [value |-> Rep(255, 8), script |-> <<>>]          \* CTxOut(): value
 HashOne == <<1>> \o Zeros(31)
 HashTypeLE(ht) == <<ht, 0, 0, 0>>
 
-LegacyIsOne(tx, i, ht) == i >= Len(tx.vin) \/ (BaseType(ht) = SIGHASH_SINGLE /\ i >= Len(tx.vout))
+\* an input index that does not exist (negative ones included), or SIGHASH_SINGLE without a matching output
+LegacyIsOne(tx, i, ht) == i < 0 \/ i >= Len(tx.vin) \/ (BaseType(ht) = SIGHASH_SINGLE /\ i >= Len(tx.vout))
 
 LegacyTxCopy(tx, sc, i, ht) ==
   LET base == BaseType(ht)
